@@ -30,13 +30,18 @@ from ref import domdef
 PROPERTY = "C25"
 LEVEL = "model_checking"
 BOUNDS = {
-    "quick": {"dominators": "all labelled digraphs, n<=3 with self loops, n=4 without self loops; entry = node 0, "
-                            "all nodes reachable",
-              "post-dominators": "same sizes; exit = node n-1 is a sink reachable from every node",
-              "CfgInfo (ir blocks)": "n<=3 blocks with self loops, out-degree <= 2"},
-    "thorough": {"dominators": "n<=4 with self loops, n=5 without self loops",
-                 "post-dominators": "n<=4 with self loops, n=5 without self loops",
-                 "CfgInfo (ir blocks)": "n<=4 blocks with self loops, out-degree <= 2"},
+    "quick": {"dominators": "all labelled digraphs with every node reachable from the entry (node 0): n<=3 with self "
+                            "loops, n=4 without self loops",
+              "post-dominators": "n<=4 with self loops; exit = node n-1 is a sink reachable from every node",
+              "CfgInfo (ir blocks)": "n<=3 blocks with self loops, n=4 without; out-degree <= 2",
+              "exhaustive": "yes (all jobs drain their queue)"},
+    "thorough": {"dominators": "n<=4 with self loops (38 912 graphs), n=5 without self loops (745 472 graphs, 255 jobs)",
+                 "post-dominators": "n<=4 with self loops, n=5 without self loops (31 550 graphs)",
+                 "CfgInfo (ir blocks)": "n<=4 blocks with self loops, out-degree <= 2",
+                 "time box": "each 5-node job stops after THOROUGH_BUDGET_S=90 s; a job that did not drain its queue is "
+                             "reported in evidence (per_harness: 'TIME-BOXED: k paths explored, m subtrees left', "
+                             "coverage.exhaustive=false); on an idle 16-core machine all jobs drain (about 5 min), "
+                             "VERIF_SEED permutes the edge decision order, i.e. which part is explored first"},
 }
 OUTSIDE = ["graphs with 6 or more nodes; self loops on 5-node graphs", "graphs with nodes unreachable from the entry",
            "post-dominance when some node cannot reach the exit or the exit has successors",
@@ -430,7 +435,8 @@ def jobs(tier, seed):
             small.append(("mk_" + kind, dict(n=n, selfloops=True)))
     if tier == "quick":
         js += _split("dom", 4, False, 3)
-        js += _split("pdom", 4, False, 2)
+        js += _split("pdom", 4, True, 2)
+        js += _split("cfginfo", 4, False, 2)
         js += small
     else:
         # the 5-node runs are time-boxed per job (budget in seconds); see BOUNDS
